@@ -364,6 +364,11 @@ def judge(ctx: common.Ctx, t: dict[str, Any], res: dict[str, Any]) -> None:
             kind = "source+source" if nsrc >= 2 else "source+import" if nsrc else "import+import"
             if any(not part.isidentifier() for i in ids for part in i.split(".")):
                 kind += ":module-id-with-non-identifier-component"
+            mpp = res.get("mypypath")
+            if mpp and os.path.normpath(mpp) != os.path.normpath(c18_gen.ROOT) and res.get("cwd_kind") != "parent":
+                # the configured search root lies INSIDE another search base (cwd / crawled base): one file legitimately has
+                # two dotted paths; mypy neither stops nor picks one
+                kind += ":search-root-nested-in-another"
             ctx.violation(f"graph:file-under-two-module-names:{kind}",
                           f"no stop, yet file {p} is in the graph as modules {ids}", wit(r, file=p, ids=ids))
         if lg["key_mismatch"]:
